@@ -31,6 +31,8 @@ ASSUMPTIONS = ["stage slopes are read from integrator.stage_values (the only pla
 def _case(draw, kind):
     if kind == "explicit":
         method = draw(st.sampled_from(M.names("explicit_rk")))
+        if draw(st.integers(0, 7)) == 0:
+            method = "Derived:" + method      # a user's subclass of the shipped class, with a tableau of its own
         dtype = draw(st.sampled_from(["float64", "float64", "float32", "longdouble"]))
     elif kind == "implicit":
         method = draw(st.sampled_from(M.names("implicit")))
